@@ -80,6 +80,28 @@ def env_of(call, n):
     return mask, seeds, ops, zin
 
 
+def inputs_in_force(scn):
+    """the mask and the base levels the implementation reports at an update (they are handed to the
+    model as the inputs in force) must be the ones the scenario set last on that graph"""
+    fails = []
+    want_mask = None
+    want_base = None
+    for c in scn.calls:
+        if c.cmd == "graph":
+            want_mask = None
+            want_base = None
+        elif c.cmd == "set_mask" and c.O.get("set_mask") == ["ok"]:
+            want_mask = [x == "1" for x in c.toks[1:]]
+        elif c.cmd == "set_base" and c.O.get("set_base") == ["ok"]:
+            want_base = set(int(x) for x in c.toks[1:])
+        elif c.cmd in ("update", "update_again") and c.i("mask") is not None:
+            if want_mask is not None and [x == "1" for x in c.i("mask")] != want_mask:
+                fails.append(("mask_in_force_is_the_one_set", "line %d: the graph reports another mask than set_mask gave it" % c.li))
+            if want_base is not None and set(int(x) for x in c.i("seeds", [])) != want_base:
+                fails.append(("base_levels_in_force_are_the_ones_set", "line %d: the graph reports base levels %s, set_base_levels gave %s" % (c.li, sorted(int(x) for x in c.i("seeds", [])), sorted(want_base))))
+    return fails
+
+
 def connected_to_base(topo, mask, seeds):
     """nodes unmasked-connected to an unmasked base level (plain BFS)"""
     seen = set(b for b in seeds if not mask[b])
